@@ -450,8 +450,10 @@ func (fr *Frame) applyContract(ct *FuncContract, fn *ssa.Function, sig *types.Si
 		if ct.Flags["deterministic"] && !ct.Flags["reveal"] && !ct.Flags["trusted"] {
 			break // callers see a deterministic in-module function only as an uninterpreted function of its arguments
 		}
-		if strings.Contains(c.Src, "at(\"") {
-			continue // speaks about a program point inside the callee: checked there, meaningless to the caller
+		if strings.Contains(c.Src, "at(\"") || strings.Contains(c.Src, "ghost(") {
+			// speaks about a program point / an event flag inside the callee: checked there, meaningless to the caller
+			// (the caller's ghost flags of the same name are different flags)
+			continue
 		}
 		g, err := penv.evalBool(c.Expr)
 		if err != nil && strings.Contains(err.Error(), "unknown identifier") {
